@@ -56,6 +56,34 @@ func (p c01) Run(c *core.Ctx) {
 			nm := sc.Nodes[c.Rng.Intn(len(sc.Nodes))].DisplayName()
 			plan[nm] = []world.SubPlan{{Early: true}, {Early: true}, {After: true}, {Before: true}, {Early: true, After: true}, {Early: true, Before: true}, {Early: true, After: true, Same: true}}[c.Rng.Intn(7)]
 		}
+		if c.Rng.Intn(4) == 0 {
+			// a holder that declares the concrete type of a component which the post-processor replaces by a
+			// wrapper of another type: the wrapper does not fit the field, so such a start cannot succeed
+			g := &world.G{Rng: c.Rng, Sc: sc}
+			for nm := range plan {
+				if t, ok := nodeNamed(sc, nm); ok {
+					h := c.Rng.Intn(len(sc.Nodes))
+					if h != t && g.EdgeByName(h, t, "", "ptr") != "" {
+						c.Count("concrete_typed_points_at_wrapped_components", 1)
+					}
+				}
+				break
+			}
+		}
+		if c.Rng.Intn(3) == 0 {
+			// a component without any injection point of its own that closes a cycle through a lookup: its
+			// Init asks for a component that is wired with it (entered from either side, by name order)
+			g := &world.G{Rng: c.Rng, Sc: sc}
+			holder := c.Rng.Intn(len(sc.Nodes))
+			loc := g.AddNode([]int{0, 1, 3}[c.Rng.Intn(3)], g.FreshName(len(sc.Nodes))) // eager types with Init, implementing IA
+			if g.EdgeByName(holder, loc, "", "iface") != "" {
+				sc.Nodes[loc].Lookups = []string{sc.Nodes[holder].DisplayName()}
+				if c.Rng.Intn(2) == 0 {
+					plan[sc.Nodes[loc].DisplayName()] = []world.SubPlan{{Early: true}, {After: true}, {Early: true, After: true, Same: true}, {Before: true}}[c.Rng.Intn(4)]
+				}
+				c.Count("locator_leaves", 1)
+			}
+		}
 		if c.Rng.Intn(2) == 0 {
 			// service-locator lookups from inside Init; some of them hit a lazy leaf component whose Init
 			// fails (the error is swallowed by the caller). A leaf hands out no early reference, so nothing
